@@ -1,0 +1,47 @@
+// Copyright 2021 TiKV Project Authors.
+//
+// Licensed under the Apache License, Version 2.0 (the "License");
+// you may not use this file except in compliance with the License.
+// You may obtain a copy of the License at
+//
+//     http://www.apache.org/licenses/LICENSE-2.0
+//
+// Unless required by applicable law or agreed to in writing, software
+// distributed under the License is distributed on an "AS IS" BASIS,
+// See the License for the specific language governing permissions and
+// limitations under the License.
+
+//go:build verif
+// +build verif
+
+package syncer
+
+import (
+	"github.com/tikv/pd/server/core"
+	"github.com/tikv/pd/server/kv"
+)
+
+// VerifHistoryBuffer exports the change log kept for region synchronisation.
+type VerifHistoryBuffer struct{ h *historyBuffer }
+
+// VerifNewHistoryBuffer creates (or reloads) a history buffer of the given capacity on kv.
+func VerifNewHistoryBuffer(size int, kv kv.Base) *VerifHistoryBuffer {
+	return &VerifHistoryBuffer{h: newHistoryBuffer(size, kv)}
+}
+
+// Record appends a record.
+func (b *VerifHistoryBuffer) Record(r *core.RegionInfo) { b.h.Record(r) }
+
+// RecordsFrom returns the records from index to the newest.
+func (b *VerifHistoryBuffer) RecordsFrom(index uint64) []*core.RegionInfo {
+	return b.h.RecordsFrom(index)
+}
+
+// ResetWithIndex resets the buffer.
+func (b *VerifHistoryBuffer) ResetWithIndex(index uint64) { b.h.ResetWithIndex(index) }
+
+// NextIndex returns the next index.
+func (b *VerifHistoryBuffer) NextIndex() uint64 { return b.h.GetNextIndex() }
+
+// VerifHistoryNextIndex returns the next index of a syncer's change log.
+func (s *RegionSyncer) VerifHistoryNextIndex() uint64 { return s.history.GetNextIndex() }
